@@ -60,7 +60,7 @@ var basicTypes = map[string]types.Type{
 
 var builtinFns = map[string]bool{"len": true, "cap": true, "old": true, "region": true, "offset": true, "fresh": true, "allocated": true,
 	"rsize": true, "istype": true, "astype": true, "bytes": true, "same": true, "addr": true, "avail": true, "typeid": true, "strof": true,
-	"nilslice": true, "maplen": true, "bytesof": true, "isnil": true, "implements": true, "snap": true, "eqbytes": true}
+	"nilslice": true, "maplen": true, "bytesof": true, "isnil": true, "implements": true, "snap": true, "eqbytes": true, "writable": true}
 
 func (en *Env) importPath(name string) string {
 	if name == "vs" {
@@ -836,6 +836,14 @@ func (en *Env) call(c ECall) TV {
 			sel := Select(aArr, j)
 			body := Implies(in, Eq(sel, Select(bArr, e.ar.Bin(token.ADD, tInt, bBase, e.ar.Bin(token.SUB, tInt, j, aBase)))))
 			return TV{V: VScalar{Forall([]*Term{j}, body, sel)}, T: boolT}
+		case "writable":
+			// writable(b): the region of b is memory handed out for the client to write
+			a := en.eval(c.Args[0])
+			v, ok := a.V.(VSlice)
+			if !ok {
+				en.fail("writable of %T", a.V)
+			}
+			return TV{V: VScalar{App("wr", BoolSort, v.Reg)}, T: boolT}
 		case "snap":
 			// snap(b): the content of a byte slice (in the heap of the evaluation context) as an immutable string value
 			a := en.eval(c.Args[0])
@@ -880,9 +888,23 @@ func (en *Env) specCall(fn *ssa.Function, args []Expr) TV {
 		en.fail("%s takes %d arguments", fn.Name(), sig.Params().Len())
 	}
 	vals := make([]Val, len(args))
+	heap := en.heap
 	for i, a := range args {
 		tv := en.eval(a)
 		pt := sig.Params().At(i).Type()
+		if sv, ok := tv.V.(VString); ok && isByteSlice(pt) {
+			// a string's content viewed as a byte slice: a synthetic region in a private heap copy
+			if sameHeap(heap, en.heap) {
+				heap = copyHeap(en.heap)
+			}
+			e := en.x.e
+			e.nfresh++
+			reg := Var(fmt.Sprintf("strview!%d", e.nfresh), e.ar.I())
+			nm := memName(byteType, "")
+			heap[nm] = Store(heapGetIn(heap, nm, e.memSort(e.ar.ByteSort())), reg, sv.Arr)
+			vals[i] = VSlice{Reg: reg, Off: sv.Off, Len: sv.Len, Cap: sv.Len}
+			continue
+		}
 		if tv.V == nil {
 			tv = en.coerce(tv, pt)
 		} else if !types.Identical(tv.T.Underlying(), pt.Underlying()) {
@@ -910,7 +932,19 @@ func (en *Env) specCall(fn *ssa.Function, args []Expr) TV {
 	} else {
 		en.fail("spec function %s must have exactly one result", fn.Name())
 	}
-	r := x.pureCall(en.st, en.heap, fn, vals)
+	r := x.pureCall(en.st, heap, fn, vals)
 	return TV{V: r, T: rt}
 }
 
+
+func sameHeap(a, b map[string]*Term) bool {
+	if len(a) != len(b) {
+		return false
+	}
+	for k, v := range a {
+		if b[k] != v {
+			return false
+		}
+	}
+	return true
+}
